@@ -3,6 +3,7 @@ package props
 import (
 	"bytes"
 	"context"
+	"encoding/json"
 	"fmt"
 	"net/http"
 	"net/http/httptest"
@@ -10,7 +11,9 @@ import (
 
 	connect "github.com/bufbuild/connect-go"
 	"github.com/bufbuild/connect-go/verifharness/internal/h"
-	"google.golang.org/protobuf/proto"
+	"google.golang.org/protobuf/encoding/protojson"
+	proto2 "google.golang.org/protobuf/proto"
+	"google.golang.org/protobuf/types/known/structpb"
 	"google.golang.org/protobuf/types/known/wrapperspb"
 )
 
@@ -56,6 +59,9 @@ func C01(r *h.Run) {
 		cfg := envCfg{Proto: protos[si%3]}
 		if si%4 == 1 {
 			cfg.Algo = "tagA"
+		}
+		if si%4 == 3 {
+			cfg.ExplicitIdentity = true // "identity" named in the encoding header rather than left out
 		}
 		minBytes := []int{0, 1, 512, 513, 100000}[si%5]
 		var body []byte
@@ -390,6 +396,85 @@ func C01(r *h.Run) {
 		}
 	}
 
+	// ---- 3b. nested messages (length-prefixed sub-messages, maps, lists) through the real codecs ----
+	for pi, proto := range protos {
+		for _, codec := range []string{"proto", "json"} {
+			var copts []connect.ClientOption
+			switch proto {
+			case "grpc":
+				copts = append(copts, connect.WithGRPC())
+			case "grpcweb":
+				copts = append(copts, connect.WithGRPCWeb())
+			}
+			if codec == "json" {
+				copts = append(copts, connect.WithProtoJSON())
+			}
+			if pi%2 == 0 {
+				copts = append(copts, connect.WithSendCompression("gzip"))
+			}
+			for k := 0; k < r.N(4, 20); k++ {
+				reqMsg := genStruct(rng, 3)
+				var resMsgs []*structpb.Struct
+				for j := 0; j < 1+rng.Intn(3); j++ {
+					resMsgs = append(resMsgs, genStruct(rng, 3))
+				}
+				var handlerGot *structpb.Struct
+				mux := http.NewServeMux()
+				mux.Handle("/verif.Svc/Nested", connect.NewServerStreamHandler("/verif.Svc/Nested",
+					func(_ context.Context, req *connect.Request[structpb.Struct], st *connect.ServerStream[structpb.Struct]) error {
+						handlerGot = proto2.Clone(req.Msg).(*structpb.Struct)
+						for _, m := range resMsgs {
+							if err := st.Send(proto2.Clone(m).(*structpb.Struct)); err != nil {
+								return err
+							}
+						}
+						return nil
+					}))
+				cl := connect.NewClient[structpb.Struct, structpb.Struct](&h.LocalClient{Handler: mux}, "http://verif.local/verif.Svc/Nested", copts...)
+				var clientGot []*structpb.Struct
+				var callErr error
+				p := safely(func() {
+					st, err := cl.CallServerStream(context.Background(), connect.NewRequest(proto2.Clone(reqMsg).(*structpb.Struct)))
+					if err != nil {
+						callErr = err
+						return
+					}
+					for st.Receive() {
+						clientGot = append(clientGot, proto2.Clone(st.Msg()).(*structpb.Struct))
+					}
+					callErr = st.Err()
+					_ = st.Close()
+				})
+				in := map[string]any{"proto": proto, "codec": codec, "request": structText(reqMsg), "responses": len(resMsgs)}
+				r.Eval("e2e_nested", fmt.Sprint(proto, codec, structText(reqMsg), len(resMsgs)))
+				r.Sample("e2e_nested", in)
+				if p != nil {
+					r.Fail(h.Failure{Key: "roundtrip/panic-or-hang", Family: "e2e_nested", What: fmt.Sprint(p), Input: in})
+					continue
+				}
+				if handlerGot == nil || !proto2.Equal(handlerGot, reqMsg) {
+					r.Fail(h.Failure{Key: "roundtrip/request-direction", Family: "e2e_nested", What: "a message with nested sub-messages reached the handler changed (or not at all)",
+						Input: in, Expected: structText(reqMsg), Actual: fmt.Sprint(structText(handlerGot), " err=", callErr)})
+				}
+				okRes := callErr == nil && len(clientGot) == len(resMsgs)
+				for j := 0; okRes && j < len(resMsgs); j++ {
+					okRes = proto2.Equal(clientGot[j], resMsgs[j])
+				}
+				if !okRes {
+					var want, got []string
+					for _, m := range resMsgs {
+						want = append(want, structText(m))
+					}
+					for _, m := range clientGot {
+						got = append(got, structText(m))
+					}
+					r.Fail(h.Failure{Key: "roundtrip/response-direction", Family: "e2e_nested", What: "messages with nested sub-messages reached the client changed, or the stream did not end cleanly",
+						Input: in, Expected: want, Actual: map[string]any{"got": got, "err": fmt.Sprint(callErr)}})
+				}
+			}
+		}
+	}
+
 	// ---- 4. the API-level reused-holder case with the proto codec ([7,0,0,3]) ----
 	for _, proto := range protos {
 		var copts []connect.ClientOption
@@ -423,5 +508,62 @@ func C01(r *h.Run) {
 				Input: map[string]any{"proto": proto, "sent": in}, Expected: "handler sees 7,0,0,3 (sum 10)", Actual: fmt.Sprint(seen, " err=", err)})
 		}
 	}
-	_ = proto.Marshal
+}
+
+// genStruct builds a google.protobuf.Struct with nested structs and lists (sub-messages whose
+// length prefixes the marshaler has to compute).
+func genStruct(rng *h.Rng, depth int) *structpb.Struct {
+	s := &structpb.Struct{Fields: map[string]*structpb.Value{}}
+	n := 1 + rng.Intn(4)
+	for i := 0; i < n; i++ {
+		s.Fields[fmt.Sprintf("k%d", i)] = genValue(rng, depth)
+	}
+	return s
+}
+
+func genValue(rng *h.Rng, depth int) *structpb.Value {
+	k := rng.Intn(6)
+	if depth == 0 && k >= 4 {
+		k = rng.Intn(4)
+	}
+	switch k {
+	case 0:
+		return structpb.NewNumberValue(float64(rng.Intn(1000)))
+	case 1:
+		return structpb.NewStringValue(string(genPayloadASCII(rng, rng.Intn(12))))
+	case 2:
+		return structpb.NewBoolValue(rng.Bool())
+	case 3:
+		return structpb.NewNullValue()
+	case 4:
+		return structpb.NewStructValue(genStruct(rng, depth-1))
+	}
+	l := &structpb.ListValue{}
+	for i := 0; i < rng.Intn(4); i++ {
+		l.Values = append(l.Values, genValue(rng, depth-1))
+	}
+	return structpb.NewListValue(l)
+}
+
+func genPayloadASCII(rng *h.Rng, n int) []byte {
+	out := make([]byte, n)
+	for i := range out {
+		out[i] = byte('a' + rng.Intn(26))
+	}
+	return out
+}
+
+func structText(s *structpb.Struct) string {
+	if s == nil {
+		return "<nil>"
+	}
+	b, err := protojson.Marshal(s)
+	if err != nil {
+		return "<" + err.Error() + ">"
+	}
+	var c bytes.Buffer
+	if json.Compact(&c, b) == nil {
+		return c.String()
+	}
+	return string(b)
 }
